@@ -102,11 +102,15 @@ func (s *socket) GetOption(option string) (interface{}, error) {
 }
 
 func (s *socket) AddPipe(pp protocol.Pipe) error {
+	s.Lock()
+	sendQLen := s.sendQLen
+	s.Unlock()
+
 	p := &pipe{
 		p:      pp,
 		s:      s,
 		closeq: make(chan struct{}),
-		sendq:  make(chan *protocol.Message, s.sendQLen),
+		sendq:  make(chan *protocol.Message, sendQLen),
 	}
 	pp.SetPrivate(p)
 	s.Lock()
